@@ -440,13 +440,16 @@ func (m *Model) runStmt(key string, idx int, sp *StmtProg, params []pgwire.Param
 					o.loose = true
 					return o
 				}
-				if msg.DeclLen != nil || msg.Cut != nil || msg.Pad != 0 || msg.NoNul {
+				if msg.DeclLen != nil || msg.Cut != nil || msg.NoNul {
 					o.loose = true
 					return o
 				}
-				if int(msg.DeclaredBody()) > m.Limit {
-					o.loose = true // oversized message inside COPY: judged by C10 only
-					return o
+				if msg.DeclaredBody() > int64(m.Limit) {
+					// an oversized message inside COPY is skipped in full and aborts the COPY
+					lastErr = "err"
+					copyAborted = true
+					o.ev = append(o.ev, fmt.Sprintf("op %d copyread err", oi))
+					break
 				}
 				switch msg.TypeByte() {
 				case 'd':
